@@ -32,7 +32,7 @@ var c01Sinks = []string{"text", "vtext", "attr", "attr2", "bound", "vbind", "bou
 // and canary are still judged.
 var c01RawTextTags = map[string]bool{"noscript": true, "xmp": true, "iframe": true, "noembed": true, "noframes": true}
 var c01Constructs = []string{"plain", "if", "else", "for-root", "for-root2", "for-child", "for-tmpl", "for-obj",
-	"inc-static", "inc-bound", "inc-scope", "slot-default", "slot-named", "slot-prop", "layout-var", "layout-page"}
+	"inc-static", "inc-bound", "inc-scope", "inc-troot", "inc-troot-req", "inc-troot-nested", "slot-default", "slot-named", "slot-prop", "layout-var", "layout-page"}
 var c01Nbhs = []string{"none", "plain", "entity", "attrs"}
 
 // decoded neighbour text per neighbourhood (source form, parsed form)
@@ -156,6 +156,12 @@ func c01Build(sink, construct, nbh string) c01Tpl {
 	case "inc-bound":
 		t.files = map[string]string{"page.vuego": wrap(`<template include="c.vuego" :p="v"></template>`), "c.vuego": `<div class="c">` + mk("p", "") + `</div>`}
 		t.litOK = false
+	case "inc-troot": // component file with a root <template> tag (the documented form)
+		t.files = map[string]string{"page.vuego": wrap(`<template include="c.vuego" :p="v"></template>`), "c.vuego": `<template><div class="c">` + mk("p", "") + `</div></template>`}
+	case "inc-troot-req":
+		t.files = map[string]string{"page.vuego": wrap(`<template include="c.vuego" p="{{ v }}"></template>`), "c.vuego": `<template :required="p">` + mk("p", "") + `<i v-for="x in two">{{ x }}</i></template>`}
+	case "inc-troot-nested": // root template that is itself an include
+		t.files = map[string]string{"page.vuego": wrap(`<template include="o.vuego" :p="v"></template>`), "o.vuego": `<template include="c.vuego" :q="p"></template>`, "c.vuego": `<template><div class="c">` + mk("q", "") + `</div></template>`}
 	case "inc-scope":
 		t.files = map[string]string{"page.vuego": wrap(`<template include="c.vuego"></template>`), "c.vuego": `<div class="c">` + mk("v", "") + `</div>`}
 	case "slot-default":
@@ -171,7 +177,7 @@ func c01Build(sink, construct, nbh string) c01Tpl {
 	default:
 		panic("construct " + construct)
 	}
-	if construct == "inc-static" || construct == "inc-bound" {
+	if construct == "inc-static" || construct == "inc-bound" || strings.HasPrefix(construct, "inc-troot") {
 		// keep literal judgement (where the sink allows it); values that decode as JSON are exempted in Exec
 		_, _, _, _, lit := c01SinkEl(sink, nbh, "p", "")
 		t.litOK = lit
@@ -182,7 +188,7 @@ func c01Build(sink, construct, nbh string) c01Tpl {
 func c01Data(val string) map[string]any {
 	return map[string]any{
 		"v": val, "w": "W", "t": true, "f": false, "secret": c01Canary,
-		"vs": []any{val}, "os": []any{map[string]any{"name": val}},
+		"vs": []any{val}, "os": []any{map[string]any{"name": val}}, "two": []any{1, 2},
 	}
 }
 
@@ -419,7 +425,7 @@ func (p *c01) Exec(ctx core.Ctx, cc any) core.Obs {
 		}
 		// literal: the sink contains the value as characters
 		if t.litOK {
-			if (c.Construct == "inc-static" || c.Construct == "inc-bound") && c01JSONLike(h) {
+			if (c.Construct == "inc-static" || c.Construct == "inc-bound" || strings.HasPrefix(c.Construct, "inc-troot")) && c01JSONLike(h) {
 				o.Cell("not-judged/json-prop-literal")
 				continue
 			}
